@@ -403,10 +403,18 @@ def check_property(pid, tier, seed):
             if e['prog']['family'].startswith('m1:') or e['end']['result'] != 'ok':
                 continue
             labels = sorted(set(x['ev'] for x in e['events'] if x['ev'] not in skip and not x['ev'].startswith('ad.')))
+            whos = {}
+            for x in e['events']:
+                whos.setdefault(x['ev'], x.get('p', ''))
             for li, lab in enumerate(labels):
                 hp = json.loads(json.dumps(e['prog']))
                 hp['id'] = '%sh%d' % (e['prog']['id'], li)
                 hp['sched'] = {'kind': 'hold', 'label': lab, 'nth': 0 if li % 4 else rng.choice([0, 1, 2]), 'seed': rng.randrange(1 << 30)}
+                if rng.random() < 0.5:
+                    hp['sched']['favor'] = rng.choice(['disp', 'disp', 'pg', 'c', 'x', 'ctl', 'w'])     # ... while one class of processes runs ahead
+                if rng.random() < 0.4 and whos.get(lab, '')[:2] not in ('pg', 're', 'ct', ''):
+                    hp['sched']['who'] = whos[lab]           # ... and the process that reached the label in the base run gets there first
+                hp['_who'] = whos.get(lab, '')
                 holds.append(hp)
             # "X has returned, then a goroutine that had passed its check acts": an internal goroutine is held at a label until
             # a barrier-like client call has returned, then runs alone for a few steps
@@ -421,6 +429,27 @@ def check_property(pid, tier, seed):
                                    'burst': rng.choice([2, 5, 9, 14]), 'seed': rng.randrange(1 << 30)}
                     windows.append(hp)
         cap = 1400 if tier == 'quick' else 24000
+        # windows at rarely visited labels are explored in every combination of "who gets there first" and "who runs ahead meanwhile"
+        freq0 = {}
+        for hp in holds:
+            freq0[hp['sched']['label']] = freq0.get(hp['sched']['label'], 0) + 1
+        extra = []
+        for hp in holds:
+            if freq0[hp['sched']['label']] <= max(6, cap // 60):
+                for k, (fav, who) in enumerate([('disp', True), ('pg', True), ('c', True), ('disp', False), ('', True)]):
+                    if who and hp['_who'][:2] in ('pg', 're', 'ct', ''):
+                        continue
+                    xp = json.loads(json.dumps(hp))
+                    xp['id'] = '%sx%d' % (hp['id'], k)
+                    xp['sched'] = {'kind': 'hold', 'label': hp['sched']['label'], 'nth': 0, 'seed': rng.randrange(1 << 30)}
+                    if fav:
+                        xp['sched']['favor'] = fav
+                    if who:
+                        xp['sched']['who'] = hp['_who']
+                    extra.append(xp)
+        holds += extra
+        for hp in holds:
+            hp.pop('_who', None)
         if len(holds) > cap:
             # windows at rarely visited labels first (tune.popped, reap.*, stopall.removed, ...), the common ones fill the rest
             freq = {}
